@@ -65,19 +65,51 @@ func (repo *Repository) NewObjectIter(ctx context.Context) (*ObjectIter, error) 
 
 		// Read the output of `git rev-list --objects`, strip off any
 		// trailing information, and write the OIDs to `git cat-file`:
-		pipe.LinewiseFunction(
+		pipe.Function(
 			"copy-oids",
-			func(_ context.Context, _ pipe.Env, line []byte, stdout *bufio.Writer) error {
-				if len(line) < 40 {
-					return fmt.Errorf("line too short: '%s'", line)
+			func(_ context.Context, _ pipe.Env, stdin io.Reader, stdout io.Writer) error {
+				// The lines can be arbitrarily long (an OID followed by
+				// a path, and Git doesn't limit the length of paths),
+				// so don't use a line scanner with a maximum token
+				// size. Instead, copy the first 40 bytes of each line
+				// and discard the rest of the line, however long it is:
+				in := bufio.NewReader(stdin)
+				out := bufio.NewWriter(stdout)
+
+				for {
+					line, err := in.ReadSlice('\n')
+					if err != nil && err != bufio.ErrBufferFull && err != io.EOF {
+						return fmt.Errorf("reading from 'git rev-list': %w", err)
+					}
+					if err == io.EOF && len(line) == 0 {
+						break
+					}
+					if line[len(line)-1] == '\n' {
+						line = line[:len(line)-1]
+					}
+					if len(line) < 40 {
+						return fmt.Errorf("line too short: '%s'", line)
+					}
+					if _, err := out.Write(line[:40]); err != nil {
+						return fmt.Errorf("writing OID to 'git cat-file': %w", err)
+					}
+					if err := out.WriteByte('\n'); err != nil {
+						return fmt.Errorf("writing LF to 'git cat-file': %w", err)
+					}
+
+					// Discard the rest of an overlong line:
+					for err == bufio.ErrBufferFull {
+						_, err = in.ReadSlice('\n')
+						if err != nil && err != bufio.ErrBufferFull && err != io.EOF {
+							return fmt.Errorf("reading from 'git rev-list': %w", err)
+						}
+					}
+					if err == io.EOF {
+						break
+					}
 				}
-				if _, err := stdout.Write(line[:40]); err != nil {
-					return fmt.Errorf("writing OID to 'git cat-file': %w", err)
-				}
-				if err := stdout.WriteByte('\n'); err != nil {
-					return fmt.Errorf("writing LF to 'git cat-file': %w", err)
-				}
-				return nil
+
+				return out.Flush()
 			},
 		),
 
